@@ -169,7 +169,9 @@ def finish(res: Result, tier: str, t0: float) -> int:
         for h in res.harness_errors[:10]:
             print(f"HARNESS-ERROR: property={res.prop} {h}")
         code = 2
-    else:
+    # a violation that was confirmed by re-execution stands on its own: it is reported (exit 1) even when some
+    # other part of the same run had machinery trouble (on a changed tree one defect often causes both)
+    if not res.harness_errors or unknown:
         for k, e in known_hit.items():
             print(f"KNOWN-FINDING: property={res.prop} {e.get('what')} [{known_counts[k]} cases]")
         if unknown:
